@@ -1678,6 +1678,46 @@ func sectionE2E(rng *vh.Rng) {
 					e2eReq{Kind: "query", Query: "select from " + tags + " limit 10", Lim: 10, Expect: "ok"})
 			}
 		}
+		// the same boundary inside ONE packet: the boundary / oversize event directly behind an event with the SAME fields text (the
+		// empty one too), behind another text, and as the third event — a validation that looks at an event only when its fields text
+		// differs from its predecessor's must not let the size test go with it. One oversize event refuses the whole packet.
+		type pk struct {
+			prevF, bigF, wf string
+			lead            int // small events in front of the boundary event
+		}
+		for vi, v := range []pk{{"", "", "", 1}, {"k=v", "k=v", "", 1}, {"k=v", "k=v", "a=b", 1}, {"k=v", "x=y", "", 1}, {"", "", "", 2}, {"", "", "a=b", 1}} {
+			for di, d := range []int{-1, 0, 1, 3, 6, 200} {
+				tags := fmt.Sprintf("rb=pk%dd%d", vi, di)
+				fbin := 0
+				if v.bigF != "" {
+					fbin += 4
+				}
+				if v.wf != "" {
+					fbin += 4
+				}
+				over := 9
+				if fbin > 0 {
+					over += uv(fbin) + fbin
+				}
+				L := limit + d - over - 2
+				if uv(L) != 2 {
+					continue
+				}
+				exp := "ok"
+				if d > 0 {
+					exp = "operr"
+				}
+				var evs []e2eE
+				for k := 0; k < v.lead; k++ {
+					evs = append(evs, e2eE{int64(10 + k), "lead", v.prevF})
+				}
+				evs = append(evs, e2eE{20, strings.Repeat("M", L), v.bigF}, e2eE{21, "tail", v.bigF})
+				b.Reqs = append(b.Reqs,
+					e2eReq{Kind: "write", Tags: tags, Flds: v.wf, Evs: []e2eE{{1, "small-before", v.prevF}}, Expect: "ok"},
+					e2eReq{Kind: "write", Tags: tags, Flds: v.wf, Evs: evs, Expect: exp},
+					e2eReq{Kind: "query", Query: "select from " + tags + " limit 10", Lim: 10, Expect: "ok"})
+			}
+		}
 		runE2EBatch(sec, b, false)
 	}
 	// the F55 class, one statement per child (a partition first, so that LIMIT is reached): at most three per run
